@@ -286,6 +286,12 @@ func newWorld(t *testing.T, rng *rand.Rand, prod bool) (*world, error) {
 		// itself past Deneb / around the Electra fork.
 		w.prodForks = mainnetLikeForks
 		w.currentEpoch = 299 + uint64(rng.Intn(20))
+		if rng.Intn(2) == 0 {
+			// the next fork (Electra, 300) is scheduled but not yet active while objects of its first epochs
+			// are already inside the accepted window: a node must pick the fork by the object's epoch,
+			// not by what it used last (seeded change C01-r7: per-domain-type cache of the latest fork)
+			w.currentEpoch = 298 + uint64(rng.Intn(2))
+		}
 		w.forkEpoch = 300
 		schedRows = nil
 		prev := mainnetLikeForks[0].Version
